@@ -529,11 +529,19 @@ def dispatch(V, allocator, alignment, times):
 
     n = len(times)
     sizes = _sizes(V, n)
-    lrs = [_mk_lr("t%d" % i, times[i][0], times[i][1], sizes[i], alignment) for i in range(n)]
+    # who touches the tensor decides the alignment its live range asks for (scheduler / live_range): a tensor a CPU operator reads or writes
+    # asks for the CPU tensor alignment, one only NPU operators touch - or an NPU-internal buffer without any operator - for 16 bytes
+    kinds = [V.choice("tensor%d is" % i, ("cpu tensor", "npu tensor", "buffer without operators")) if (alignment > 16 and i < 2) else "cpu tensor" for i in range(n)]
+    aligns = [alignment if k == "cpu tensor" else 16 for k in kinds]
+    lrs = [_mk_lr("t%d" % i, times[i][0], times[i][1], sizes[i], aligns[i]) for i in range(n)]
     for i, lr in enumerate(lrs):
         t = lr.tensors[0]
         t.weight_compression_config = ("cfg", i)
         t.scale_compression_config = ("scfg", i)
+        if kinds[i] == "npu tensor":
+            t.ops, t.consumer_list = [_Obj(run_on_npu=True)], [_Obj(run_on_npu=True)]
+        elif kinds[i] != "cpu tensor":
+            t.ops, t.consumer_list = [], []
 
     class G:
         pass
@@ -567,7 +575,7 @@ def dispatch(V, allocator, alignment, times):
     cl = []
     top = L(0)
     for i in range(n):
-        cl.append(("tensor %d honours the requested alignment %d" % (i, alignment), L(addrs[i]) % alignment == 0))
+        cl.append(("tensor %d (%s) honours its requested alignment %d" % (i, kinds[i], aligns[i]), L(addrs[i]) % aligns[i] == 0))
         e = L(addrs[i]) + L(sizes[i])
         top = z3.If(e > top, e, top)
         for j in range(i + 1, n):
@@ -672,6 +680,14 @@ def wbuf_lifetime(V, **params):
     from harness import c03
 
     return c03.wbuf(V, **params)
+
+
+def wbuf_live(V, **params):
+    """every SRAM weight buffer's live range is marked and covers its operation's time step (harness/c03.py wbuf_live: the real
+    extract_live_ranges_from_schedule / LiveRange.mark_usage): the allocators keep co-live ranges apart only if the ranges say when they live"""
+    from harness import c03
+
+    return c03.wbuf_live(V, **params)
 
 
 def lr_sizes(V, rank):
@@ -782,7 +798,7 @@ def address_map(V, nsteps):
     return cl
 
 
-FUNCS = {"lr_sizes": lr_sizes, "report": report, "address_map": address_map, "ifm_fuse": ifm_fuse, "wbuf_lifetime": wbuf_lifetime, "lr_extract": lr_extract, "hc_indices": hc_indices, "hc_wrapper": hc_wrapper, "hc_search_step": hc_search_step, "hc_fix_perm": hc_fix_perm,
+FUNCS = {"wbuf_live": wbuf_live, "lr_sizes": lr_sizes, "report": report, "address_map": address_map, "ifm_fuse": ifm_fuse, "wbuf_lifetime": wbuf_lifetime, "lr_extract": lr_extract, "hc_indices": hc_indices, "hc_wrapper": hc_wrapper, "hc_search_step": hc_search_step, "hc_fix_perm": hc_fix_perm,
          "hc_allocate": hc_allocate, "greedy_step": greedy_step, "greedy_whole": greedy_whole, "verify_rejects": verify_rejects,
          "linear": linear, "lr_alignment": lr_alignment, "dispatch": dispatch}
 
@@ -876,6 +892,8 @@ def instances(tier, seed):
             out.append(dict(key=inst["key"], fn="ifm_fuse", params=inst["params"], weight=inst.get("weight", 1)))
         if inst["fn"] == "wbuf":
             out.append(dict(key="wbuf_lifetime/" + inst["key"], fn="wbuf_lifetime", params=inst["params"]))
+        if inst["fn"] == "wbuf_live":
+            out.append(dict(key=inst["key"], fn="wbuf_live", params=inst["params"]))
     for allocator in ("Greedy", "LinearAlloc", "HillClimb"):
         for alignment in (16, 64, 128):
             for tv in (((0, 1), (1, 2)), ((0, 0), (1, 1), (0, 1))):
